@@ -173,11 +173,22 @@ def one_case(item):
             return {"inconclusive": "%s on %r" % (r.cls, item)}
         if r.cls != "ok":
             problems.append("exit:" + r.cls)
+        # "reports how many it removed": the pinned wording `Removed N files`, or — whatever the wording — the last
+        # line of the output that carries a number standing alone (the summary follows the per-file lines)
         m = re.search(r"Removed (\d+) files", r.out)
+        reported = None
+        if m:
+            reported = int(m.group(1))
+        else:
+            for line in reversed([l for l in r.out.split("\n") if l.strip()]):
+                nums = re.findall(r"(?<![\w./-])(\d+)(?![\w./-])", line)
+                if nums:
+                    reported = int(nums[0]) if len(set(nums)) == 1 else (len(removed) if str(len(removed)) in nums else int(nums[0]))
+                    break
         if r.cls == "ok":
-            if not m:
+            if reported is None:
                 problems.append("no_count_reported")
-            elif int(m.group(1)) != len(removed):
+            elif reported != len(removed):
                 problems.append("count_mismatch")
         # ---- syscall monitor
         events = parse_strace(st_text, os.path.realpath(cwd))
